@@ -118,7 +118,9 @@ Theorem batch_under_failure_general c reqs :
   c_failure c = Some FInternal ->
   batch_write lm s c reqs = (c, ok_obs (PBatchWrite (all_unprocessed reqs [])) []).
 Proof.
-  intros Hf. unfold batch_write. rewrite Hf. cbn [andb].
+  intros Hf. unfold batch_write, v1_empty_batch. rewrite Hf.
+  assert ((match s with V1 => false | V2 => false end) = false) as -> by (destruct s; reflexivity).
+  unfold batch_write_core. rewrite Hf. cbn [andb].
   now rewrite (batch_tables_under_failure reqs c [] Hf).
 Qed.
 
